@@ -40,6 +40,9 @@ class Gen:
         self.n = n_passages or rng.randint(3, 6)
         self.max_depth = max_depth
         self.names = ["Start"] + [f"P{i}" for i in range(1, self.n)]
+        if rng.random() < self.f.get("odd_names", 0) and self.n > 2:
+            # legal passage names that look like something else: pieces of the reserved "@join", dotted names, a leading underscore
+            self.names[-1] = rng.choice(["join", "in", "jo", "o", "Scene.One", "_end", "oin"])
         self.hook_names = []
         self.params = {}     # passage -> [(name, default or None)]
         self.cycles = rng.random() < self.f["jump_mode_cycles"]
@@ -228,6 +231,11 @@ class Gen:
             k = r.random()
             if k < 0.04:
                 ps.append(("t", "see a\\//b "))        # an escaped // is text, not a comment
+            elif k < 0.16 and self.p("odd_colons"):
+                # more than one colon in a display expression (real-engine differential families only: outside the
+                # colon-safe fragment, and outside MiniPy)
+                ps.append(("e", r.choice(["xs[0:1]:", "s[0:2]:>6", "ys[:1]:", "d['k']:>3:", "'a:b':>5", "s:%H:%M", "(1 if f else 2):>3",
+                                          "{'k': 1}['k']:03", "xs[len(xs):]:"])))
             elif k < 0.5:
                 ps.append(("t", self.prose() + r.choice([" ", ", ", ". ", ""])))
             elif k < 0.85 or not allow_ic:
